@@ -101,6 +101,10 @@ func nonNilAt(g *GuardCtx, ptr ssa.Value, at ssa.Instruction) (bool, string) {
 		if nilTestDominates(g, sym, at.Block()) {
 			return true, "dominated by a nil test of " + sym
 		}
+		// an unexported helper: the test may be made by every caller before the call
+		if ok, why := nonNilAtCallers(g, x, at.Parent()); ok {
+			return true, why
+		}
 		return false, "load of " + sym + " without a dominating nil test"
 	}
 	// any value: a dominating test of the value itself
@@ -108,6 +112,87 @@ func nonNilAt(g *GuardCtx, ptr ssa.Value, at ssa.Instruction) (bool, string) {
 		return true, "dominated by a nil test of the value"
 	}
 	return false, "no dominating nil test"
+}
+
+// nonNilAtCallers: ld loads field f of a parameter of the unexported function fn (no store to
+// that field in fn), every use of fn is a static call in the module, and at each of them a nil
+// test of the same field of the argument dominates the call.
+func nonNilAtCallers(g *GuardCtx, ld *ssa.UnOp, fn *ssa.Function) (bool, string) {
+	fa, ok := ld.X.(*ssa.FieldAddr)
+	if !ok {
+		return false, ""
+	}
+	prm, ok := fa.X.(*ssa.Parameter)
+	if !ok || prm.Parent() != fn || fn.Object() == nil || fn.Object().Exported() {
+		return false, ""
+	}
+	idx := -1
+	for i, q := range fn.Params {
+		if q == prm {
+			idx = i
+		}
+	}
+	stored := false
+	Instrs(fn, func(in ssa.Instruction) {
+		if st, ok := in.(*ssa.Store); ok {
+			if fa2, ok := st.Addr.(*ssa.FieldAddr); ok && fa2.Field == fa.Field && types.Identical(fa2.X.Type(), fa.X.Type()) {
+				stored = true
+			}
+		}
+	})
+	if idx < 0 || stored {
+		return false, ""
+	}
+	sites, complete := g.P.staticCallSites(fn)
+	if !complete || len(sites) == 0 {
+		return false, ""
+	}
+	for _, site := range sites {
+		caller := site.Parent()
+		cc := CallOf(site)
+		if idx >= len(cc.Args) {
+			return false, ""
+		}
+		arg := cc.Args[idx]
+		gc := NewGuardCtx(g.P, caller, nil)
+		okSite := false
+		Instrs(caller, func(in ssa.Instruction) {
+			l2, ok := in.(*ssa.UnOp)
+			if !ok || l2.Op != token.MUL || okSite {
+				return
+			}
+			fa2, ok := l2.X.(*ssa.FieldAddr)
+			if !ok || fa2.X != arg || fa2.Field != fa.Field {
+				return
+			}
+			if nilTestDominates(gc, gc.PC.loadPoly(l2).String(), site.Block()) {
+				// no store to the field between the test and the call
+				clean := true
+				for _, st := range allFieldStores(caller, fa2) {
+					if InstrReaches(l2, st) && InstrReaches(st, site) {
+						clean = false
+					}
+				}
+				okSite = clean
+			}
+		})
+		if !okSite {
+			return false, ""
+		}
+	}
+	return true, fmt.Sprintf("every call of %s (%d) is dominated by a nil test of the argument's field", FuncName(fn), len(sites))
+}
+
+func allFieldStores(fn *ssa.Function, like *ssa.FieldAddr) []ssa.Instruction {
+	var out []ssa.Instruction
+	Instrs(fn, func(in ssa.Instruction) {
+		if st, ok := in.(*ssa.Store); ok {
+			if fa, ok := st.Addr.(*ssa.FieldAddr); ok && fa.Field == like.Field && types.Identical(fa.X.Type(), like.X.Type()) {
+				out = append(out, in)
+			}
+		}
+	})
+	return out
 }
 
 // nilTestDominates: some dominating branch establishes load(sym) != nil.
@@ -632,24 +717,38 @@ func c15R5(p *Prog, r *Report) {
 	pc := NewPolyCtx(dec)
 	pc.G = true
 	n := 0
-	Instrs(dec, func(in ssa.Instruction) {
+	// reads of the input in ReadPacket and in the helpers of the package it hands the reader to
+	InstrsDeep(dec, 2, func(d DeepInstr) {
+		in := d.In
+		isInput := func(v ssa.Value) bool {
+			if mi, ok := v.(*ssa.MakeInterface); ok {
+				v = mi.X
+			}
+			return ArgForParam(d.Path, v) == ssa.Value(dec.Params[0])
+		}
+		cc := CallOf(in)
+		if cc == nil || len(cc.Args) == 0 {
+			return
+		}
 		var buf ssa.Value
-		if IsCallTo(in, "io.ReadFull") {
-			buf = CallOf(in).Args[1]
-		} else if IsCallTo(in, "encoding/binary.Read") {
-			buf = CallOf(in).Args[2]
+		if IsCallTo(in, "io.ReadFull") && isInput(cc.Args[0]) {
+			buf = cc.Args[1]
+		} else if IsCallTo(in, "encoding/binary.Read") && isInput(cc.Args[0]) {
+			buf = cc.Args[2]
 			if mi, ok := buf.(*ssa.MakeInterface); ok {
 				buf = mi.X
 			}
-		} else if cc := CallOf(in); cc != nil {
+		} else {
 			// any other consumer of the reader parameter
 			for _, a := range cc.Args {
-				if a == ssa.Value(dec.Params[0]) {
+				if isInput(a) {
+					if c := cc.StaticCallee(); isModuleFn(c) && inPackets(c) && len(d.Path) < 2 {
+						r.Fn(FuncName(c))
+						continue // followed: its reads are checked like the decoder's own
+					}
 					r.Bad("C15.R5", "unexpected consumer of the input in ReadPacket", p.InstrPos(in), "the reader is passed to "+CalleeName(cc)+": consumption is no longer bounded by the header")
 				}
 			}
-			return
-		} else {
 			return
 		}
 		n++
